@@ -7,7 +7,7 @@ from __future__ import annotations
 import itertools
 
 from sa.harness import H, show
-from sa.ae import Seq, Builtin, ExtV, Callback, Unknown, Raised, SAtom, mkstr, Obj, SymStr
+from sa.ae import Seq, Builtin, ExtV, Callback, Unknown, Raised, SAtom, mkstr, Obj, SymStr, DictV
 from rules import common
 
 LEVEL = "proof"
@@ -34,7 +34,9 @@ class Recorder:
             # pyvis asserts that both nodes exist
             if not any(I_.eq(src, n) for n in rec.nodes) or not any(I_.eq(dst, n) for n in rec.nodes):
                 raise Raised(B.mkexc("AssertionError", "non existent node"))
-            rec.events.append(("add_edge", src, dst, net.attrs.get("directed"), k.get("title")))
+            arrows = k.get("arrows")
+            directed = bool(I_.truth(net.attrs.get("directed"))) if "arrows" not in k else (isinstance(arrows, str) and "to" in arrows or isinstance(arrows, DictV))
+            rec.events.append(("add_edge", src, dst, directed, k.get("title")))
 
         def show_buttons(I_, net, **k):
             rec.events.append(("show_buttons", k.get("filter_")))
@@ -126,23 +128,32 @@ def evaluate(h, rec, fn, links, stale, cbs):
         return f"node ids {[e[1] for e in nodes]}, expected [0, 1] in universe order", sample
     for (name, i), e in zip(idx.items(), nodes):
         lab = e[2]
-        want = SAtom("Label", V[name]) if cbs else SAtom("HexId", V[name])
-        got = lab.parts[0] if isinstance(lab, SymStr) and len(lab.parts) == 1 else lab
-        if not (hasattr(got, "key") and got.key() == want.key()):
-            return f"node {i} labelled {lab!r}, expected {want!r}", sample
-    want_edges = []
-    for l, (k, e) in zip(L, links):
-        if e[0] in idx and e[1] in idx:
-            want_edges.append((idx[e[0]], idx[e[1]], KINDS[k], l))
+        if cbs:   # "labelled by rvfunc"; without rvfunc the label is not specified
+            want = SAtom("Label", V[name])
+            got = lab.parts[0] if isinstance(lab, SymStr) and len(lab.parts) == 1 else lab
+            if not (hasattr(got, "key") and got.key() == want.key()):
+                return f"node {i} labelled {lab!r}, expected rvfunc's label {want!r}", sample
+    internal = [(idx[e[0]], idx[e[1]], KINDS[k], l) for l, (k, e) in zip(L, links) if e[0] in idx and e[1] in idx]
     got_edges = [e for e in rec.events if e[0] == "add_edge"]
-    remaining = list(want_edges)
-    for g in got_edges:
-        hit = next((w for w in remaining if w[0] == g[1] and w[1] == g[2] and bool(w[2]) == bool(g[3]) and title_ok(g[4], w[3], cbs)), None)
-        if hit is None:
-            return f"spurious or mis-directed edge event {ev_str(g)}; expected edges (from, to, directed): {[(w[0], w[1], w[2]) for w in want_edges]}", sample
-        remaining.remove(hit)
-    if remaining:
-        return f"no edge event for link(s) {[(w[0], w[1], 'directed' if w[2] else 'undirected') for w in remaining]}; events: {[ev_str(e) for e in got_edges]}", sample
+    # directed links: exactly one arrowed edge i -> j per link
+    want_dir = [(w[0], w[1]) for w in internal if w[2]]
+    got_dir = [(g[1], g[2]) for g in got_edges if g[3]]
+    for w in want_dir:
+        if w in got_dir:
+            got_dir.remove(w)
+        else:
+            return f"no arrowed edge {w[0]}->{w[1]} for a directed link (or fewer than links); edge events: {[ev_str(e) for e in got_edges]}", sample
+    if got_dir:
+        return f"arrowed edge(s) {got_dir} correspond to no directed link from vertex i to vertex j; edge events: {[ev_str(e) for e in got_edges]}", sample
+    # other links: their pair of nodes is joined by at least one arrow-less edge; every arrow-less edge joins the ends of such a link
+    pairs = [frozenset((w[0], w[1])) for w in internal if not w[2]]
+    got_und = [frozenset((g[1], g[2])) for g in got_edges if not g[3]]
+    for pr in pairs:
+        if pr not in got_und:
+            return f"no arrow-less edge joins nodes {sorted(pr)} although a non-directed link joins those members; edge events: {[ev_str(e) for e in got_edges]}", sample
+    for pr in got_und:
+        if pr not in pairs:
+            return f"arrow-less edge between nodes {sorted(pr)} corresponds to no non-directed link between those members", sample
     return None, sample
 
 
@@ -172,7 +183,7 @@ def fwd(ctx, h, rec, res):
     except Unknown as u:
         res.undecide(f"pyvis_render_customizable: {u}")
         return
-    ok = out.kind == "return" and len(rv.calls) == 2 and len(re_.calls) == 1 and [e[0] for e in rec.events].count("add_edge") == 1
+    ok = out.kind == "return" and len(rv.calls) >= 2 and len(re_.calls) >= 1 and [e[0] for e in rec.events].count("add_edge") == 1
     res.ob(ok, sig=("fwd",))
     res.rule("FWD", 1)
     if not ok:
